@@ -17,6 +17,20 @@ Driver for component `key` (C03).  A key is two tokens: `<name-hex> <labels>` wi
   sched static|built A <n> <grants> → 0:load-flag,1:load-flag,… ok,ok
                                                     the real threads ran exactly `grants` (token passing over the yield
                                                     points of `get_hash`); per grant the point it started from, then results
+  mix static|prehashed A <roles> <grants> → 0:start,1:start,0:cow-clone,… fresh,ok
+                                                    threads with roles `h` (first `get_hash()`) / `c` (`clone()`) on one shared
+                                                    key, run exactly under `grants` (token passing over the yield points of
+                                                    `get_hash` and of the two `Cow::clone` calls inside `Key::clone`; every
+                                                    thread first parks at a harness-side `start` point).  The real `clone` has
+                                                    no yield point between `labels.clone()` and its two loads, so a grant at the
+                                                    second `cow-clone` point is three model steps.  Results: `ok`/`bad:v` for a
+                                                    hasher; for a cloner `fresh` (copied `hashed = false`), `memo:ok` /
+                                                    `memo:bad:v` (copied `hashed = true` and the right / a wrong value)
+  ceq  K A K B        → 1 | 0                       `CompositeKey::new(K, a) == CompositeKey::new(K, b)`, K = c | g | h
+  ccmp K A K B        → lt | eq | gt                `….cmp(…)`
+  leq / lcmp  L L     → 1 | 0  /  lt | eq | gt      `Label == Label`, `Label::cmp`
+  scmp S S            → lt | eq | gt                `Ord for SharedString / KeyName` (= `Ord for str`)
+  nhash S             → B<hex>,Uff                  calls of `Hash for KeyName` on a recording hasher (= those of `Hash for str`)
 -/
 namespace MetricsVerif.Driver.Key
 open MetricsVerif.Driver MetricsVerif.Key
@@ -46,11 +60,37 @@ def demoH (ws : List Write) : Nat :=
 def pcName : PC → String
   | .idle => "idle" | .loadFlag => "load-flag" | .loadHash => "load-hash"
   | .storeHash _ => "store-hash" | .storeFlag _ => "store-flag" | .done _ => "done"
+  | .cloneName => "cow-clone" | .cloneLabels => "cow-clone" | .cloneFlag => "clone-load-flag"
+  | .cloneHash _ => "clone-load-hash" | .cloneHashFirst => "clone-load-hash" | .cloneFlagSecond _ => "clone-load-flag"
+  | .cloned _ _ => "cloned"
 
 def showResults (s : Sys) (h nt : Nat) : String :=
   showList (fun t => match s.pc t with
     | .done v => if v = h then "ok" else s!"bad:{v}"
     | _ => "unfinished") (List.range nt)
+
+def showMixResults (s : Sys) (h nt : Nat) : String :=
+  showList (fun t => match s.pc t with
+    | .done v => if v = h then "ok" else s!"bad:{v}"
+    | .cloned f v => if f then (if v = h then "memo:ok" else s!"memo:bad:{v}") else "fresh"
+    | _ => "unfinished") (List.range nt)
+
+def roleTok : String → Option Role
+  | "h" => some .hasher
+  | "c" => some .cloner
+  | _ => none
+
+def kindTok : String → Option Kind
+  | "c" => some .counter
+  | "g" => some .gauge
+  | "h" => some .histogram
+  | _ => none
+
+/-- what the real code does between the yield point thread `t` is parked at and its next one -/
+def grantStep (h : Nat) (s : Sys) (t : Nat) : Sys :=
+  match s.pc t with
+  | .cloneLabels => step codeOrds h (step codeOrds h (step codeOrds h s t) t) t
+  | _ => step codeOrds h s t
 
 def handle (args : List String) : Option String :=
   match args with
@@ -91,6 +131,32 @@ def handle (args : List String) : Option String :=
     let (s, trace) := grants.foldl (fun (acc : Sys × List String) t =>
       (step codeOrds h acc.1 t, s!"{t}:{pcName (acc.1.pc t)}" :: acc.2)) (s0, [])
     pure s!"{showList id trace.reverse} {showResults s h nt}"
+  | ["mix", kind, n, l, roles, grants] => do
+    let k ← keyToks n l
+    let rs ← listTok roleTok roles
+    let grants ← listTok String.toNat? grants
+    let h := generateKeyHash demoH k
+    let s0 ← match kind with
+      | "static" => some (freshOf false 0 (rolesOf rs))
+      | "prehashed" => some (freshOf true h (rolesOf rs))
+      | _ => none
+    let (s, _, trace) := grants.foldl (fun (acc : Sys × List Nat × List String) t =>
+      let (s, started, tr) := acc
+      if started.contains t then (grantStep h s t, started, s!"{t}:{pcName (s.pc t)}" :: tr)
+      else (s, t :: started, s!"{t}:start" :: tr)) (s0, [], [])
+    pure s!"{showList id trace.reverse} {showMixResults s h rs.length}"
+  | ["ceq", ka, na, la, kb, nb, lb] => do
+    pure (if CompositeKey.eq ⟨← kindTok ka, ← keyToks na la⟩ ⟨← kindTok kb, ← keyToks nb lb⟩ then "1" else "0")
+  | ["ccmp", ka, na, la, kb, nb, lb] => do
+    pure (showOrd (CompositeKey.cmp ⟨← kindTok ka, ← keyToks na la⟩ ⟨← kindTok kb, ← keyToks nb lb⟩))
+  | ["leq", a, b] => do
+    pure (if Label.eq (← labelTok a) (← labelTok b) then "1" else "0")
+  | ["lcmp", a, b] => do
+    pure (showOrd (Label.cmp (← labelTok a) (← labelTok b)))
+  | ["scmp", a, b] => do
+    pure (showOrd (cmpStr (← strTok a) (← strTok b)))
+  | ["nhash", a] => do
+    pure (showList showWrite (keyNameWrites (← strTok a)))
   | _ => none
 
 end MetricsVerif.Driver.Key
